@@ -74,6 +74,8 @@ type family struct {
 	csvOrder []string
 	csvCols  csv.ToConfigFunc
 	gbCols   groupby.ConfigFunc
+	inInts   []int
+	inStrs   []string
 	clauses  []qframe.FilterClause
 	orders   []qframe.Order
 }
@@ -163,6 +165,8 @@ func TestC11(t *testing.T) {
 			f.csvOrder = []string{"i1", "id", "s1", "f1", "e1"}
 			f.csvCols = csv.Columns(f.csvOrder)
 			f.gbCols = groupby.Columns("i1", "e1", "i1")
+			f.inInts = []int{7, -3, 64, 2, 0, 5, -1, 3, 1000, 1, -2, 8, 4, 3, -1000, 6}
+			f.inStrs = []string{"b", "ab", "a", "", "abc", "B", "zz", "A", "c", "ba", "aB", "b%", "Ab", "a b", "x"}
 			for _, c := range sharedClauses {
 				f.clauses = append(f.clauses, c.Build(hx.KindMap(f.tabs[5])))
 			}
@@ -192,7 +196,18 @@ func TestC11(t *testing.T) {
 				mi = 4 // more weight on the member that was itself made by adding a column (its column slice has a history)
 			}
 			tab, mn := tabs[mi], c11Names[mi]
-			switch rapid.IntRange(0, 21).Draw(t, "op") {
+			switch rapid.IntRange(0, 22).Draw(t, "op") {
+			case 22:
+				// one []int / []string value list shared by several in-filters
+				str := rapid.Bool().Draw(t, "inliststr")
+				makers[i] = opMaker{desc: fmt.Sprintf("%s.Filter(in shared list, strings=%v)", mn, str), mk: func(f family) func() string {
+					return func() string {
+						if str {
+							return snapFrame(f.members[mi].Filter(qframe.Filter{Column: "s1", Comparator: "in", Arg: f.inStrs})) + fmt.Sprint(f.inStrs)
+						}
+						return snapFrame(f.members[mi].Filter(qframe.Filter{Column: "i1", Comparator: "in", Arg: f.inInts})) + fmt.Sprint(f.inInts)
+					}
+				}}
 			case 20:
 				// the case's focus function (one built-in of the eval context or the function package) applied to a column:
 				// several operations of this kind in one case run the same library function at once
@@ -487,10 +502,14 @@ func TestC11(t *testing.T) {
 			runtime.GOMAXPROCS(procs)
 			results := make([]string, nops)
 			panics := make([]error, nops)
+			// every operation is started twice (the multiset holds each operation two times): state that one
+			// operation keeps in a shared argument, option or function value then always has a second user
+			twins := make([]string, nops)
+			twinPanics := make([]error, nops)
 			var wg sync.WaitGroup
 			start := make(chan struct{})
 			for i := range ops {
-				wg.Add(1)
+				wg.Add(2)
 				go func(i int) {
 					defer wg.Done()
 					<-start
@@ -499,9 +518,25 @@ func TestC11(t *testing.T) {
 					}
 					panics[i] = hx.Safely(func() { results[i] = ops[i].run() })
 				}(i)
+				go func(i int) {
+					defer wg.Done()
+					<-start
+					if rep == 2 && i%2 == 0 {
+						runtime.Gosched()
+					}
+					twinPanics[i] = hx.Safely(func() { twins[i] = ops[i].run() })
+				}(i)
 			}
 			close(start)
 			wg.Wait()
+			for i := range ops {
+				if panics[i] == nil && twinPanics[i] != nil {
+					panics[i] = twinPanics[i]
+				}
+				if panics[i] == nil && twins[i] != results[i] {
+					results[i] = twins[i] + "\n(the second of two simultaneous runs of this operation; the first returned)\n" + results[i]
+				}
+			}
 			for i := range ops {
 				if panics[i] != nil {
 					t.Fatalf("operation %d (%s) panicked when run concurrently (repetition %d, GOMAXPROCS %d): %v\n%s", i, ops[i].desc, rep, procs, panics[i], desc)
